@@ -479,6 +479,8 @@ def run(rep):
     _group(rep, _r14d)
     _group(rep, _r14e)
     _group(rep, _r14f)
+    _group(rep, _r14g_provenance)
+    _group(rep, _r14g_state)
 
 
 def _find_file_call(st):
@@ -814,6 +816,56 @@ def _r14e(rep):
         all(_all_srcs(gfr, _argn(gfr, c, 'cached_modify_time', 2), lambda e: norm(e) == 'request.if_modified_since') for c in bc)
     rep.check('R14.e', fkey(gfr, 'if_modified_since'), ok, 'conditional requests use request.if_modified_since' if ok else
               'cached_modify_time is not request.if_modified_since', st, bc[0] if bc else gfr.node)
+
+
+# ---------------------------------------------------------------------------------------------- R14.g: no history
+def _bfr_calls(fi):
+    return [c for c in walk_body(fi.node) if isinstance(c, ast.Call) and call_name(c) in local_aliases(fi, 'build_file_response')]
+
+
+def _r14g_provenance(rep):
+    """What is served is what *this* request looked up: every value that can reach the path argument of
+    build_file_response is the result of the find_file call of this activation (StaticApplication) / the configured
+    file path (StaticFileRoute) -- not something remembered from an earlier request."""
+    repo = rep.repo
+    st = repo.mod(STATIC)
+    rep.rule('R14.g', 'the answer is computed from this request and the file system as it is now: the served path comes from the '
+             'lookup made by this request, nothing a request learns is kept in an object that outlives it, no serving function is '
+             'wrapped by a result cache')
+    gfr, ffc, res_var = _find_file_call(st)
+    bc = _bfr_calls(gfr)
+    if not bc:
+        raise AnalysisError('StaticApplication.get_file_response: call of build_file_response not found')
+
+    def looked_up_now(e):
+        return e is ffc or (isinstance(e, ast.Constant) and e.value is None)
+    for c in bc:
+        p = _argn(gfr, c, 'path', 0)
+        ok = p is not None and _all_srcs(gfr, p, looked_up_now) and any(x is ffc for x in _srcs(gfr, p))
+        rep.check('R14.g', fkey(gfr, 'served path is looked up by this request'), ok,
+                  'the path handed to build_file_response is, on every path, the result of this request\'s find_file call' if ok else
+                  'the path handed to build_file_response (%s) does not always come from the find_file call of this request: %s'
+                  % (short(p) if p is not None else '?', '; '.join(short(x, 50) for x in (_srcs(gfr, p) if p is not None else [])
+                                                                     if not (isinstance(x, ast.expr) and looked_up_now(x))) or 'no source'),
+                  st, c)
+    sfr = st.func('StaticFileRoute.get_file_response')
+    bc2 = _bfr_calls(sfr)
+    if not bc2:
+        raise AnalysisError('StaticFileRoute.get_file_response: call of build_file_response not found')
+    for c in bc2:
+        p = _argn(sfr, c, 'path', 0)
+        ok = p is not None and _all_srcs(sfr, p, lambda e: norm(e) == 'self.file_path')
+        rep.check('R14.g', fkey(sfr, 'served path is the configured one'), ok,
+                  'the route serves self.file_path' if ok else
+                  'the path handed to build_file_response (%s) is not always self.file_path' % (short(p) if p is not None else '?'), st, c)
+
+
+def _r14g_state(rep):
+    from . import c14_state
+    repo = rep.repo
+    st = repo.mod(STATIC)
+    roots = [st.func('StaticApplication.get_file_response'), st.func('StaticFileRoute.get_file_response')]
+    c14_state.check_history_free(rep, 'R14.g', st, roots)
 
 
 # ---------------------------------------------------------------------------------------------- R14.f: time base
